@@ -20,6 +20,8 @@ def seg_comp(k):
 
 
 def seg_content(sc, k):
+    if k in (sc.get('no_content') or ()):
+        return None         # a Data packet without a Content element at all (not the same as an empty one)
     n = sc['sizes'][k] if k < len(sc['sizes']) else 3
     return bytes(((k + 1) * 31 + i) & 0xff for i in range(n))
 
@@ -462,6 +464,7 @@ def _scenario(rng, seed, extra, nseg, discovery, loss, invalid, R, life, keys):
             'discovery': discovery if nseg < 2 or rng.random() < 0.7 else 0, 'loss': loss, 'invalid': invalid,
             'retry_times': R, 'lifetime': life, 'mbf': rng.random() < 0.7,
             'name_form': rng.choice([None, None, None, 'list', 'wire', 'iter', 'gen']),
+            'no_content': sorted(set(rng.randrange(max(nseg, 1)) for _ in range(rng.randint(1, 2)))) if rng.random() < 0.08 else [],
             'stored_beyond': rng.choice([0, 0, 0, 1, 3]) if nseg else 0,
             'ops': [{'seg': k} for k in keys]}
 
